@@ -4,6 +4,8 @@ import (
 	"fmt"
 	"hash/fnv"
 	"net/netip"
+	"os"
+	"sort"
 	"strconv"
 	"strings"
 
@@ -310,6 +312,11 @@ func inAny(l []netip.Prefix, a netip.Addr) bool {
 
 // checkPacket evaluates the clauses of the property statement on one (configuration, packet, fate).
 // It returns "" or the name of the violated clause.
+// stats: how often each clause's antecedent held (written next to the verdicts as <out>.stats)
+var stats = map[string]int{}
+
+func hit(k string) { stats[k]++ }
+
 func checkPacket(q parsedCfg, p packet, f fate) string {
 	if f.err != "" {
 		return "interpreter:" + f.err
@@ -347,10 +354,16 @@ func checkPacket(q parsedCfg, p packet, f fate) string {
 			return "dns_proxy_uid_port53"
 		}
 		if proxy {
+			hit("no_loop.proxy-owned-packets")
 			// no_loop: the proxy's own traffic never goes to the outbound port; the only redirect it may
 			// take is the call-to-self on lo to a non-loopback address, to the inbound port
 			if red != "" && !(red == q.inboundPort && p.outIf == "lo" && !loopDst && p.proto == "tcp") {
 				return "no_loop"
+			}
+			// the call-to-self never takes the tunnel port (HBONE traffic to the pod's own 15008 goes straight to
+			// the proxy's tunnel listener), and - for a proxy UID under DNS capture - never port 53
+			if red != "" && strconv.FormatUint(p.dport, 10) == q.tunnelPort {
+				return "self_call_tunnel_port_exempt"
 			}
 			// no_loop, narrowed: that redirect is never taken by the proxy's own deliveries - packets from the
 			// passthrough source 127.0.0.6 / ::6, and packets owned by a LATER identity only (the TPROXY-mode proxy
@@ -373,6 +386,12 @@ func checkPacket(q parsedCfg, p packet, f fate) string {
 					first, ownsFirst = "gid", p.gid == q.gids[0]
 				}
 				cornerDNS := q.dns && p.dport == 53
+				if first != "" && !ownsFirst && (cornerDNS || q.loopbackIncluded) {
+					hit("delivery_loop.excluded-known-corner")
+				}
+				if ownsFirst {
+					hit("no_loop.self-call-of-first-identity")
+				}
 				if first != "" && !ownsFirst && !cornerDNS && !q.loopbackIncluded {
 					return "delivery_loop:later-identity"
 				}
@@ -388,6 +407,7 @@ func checkPacket(q parsedCfg, p packet, f fate) string {
 		identity := len(q.uids)+len(q.gids) > 0
 		// loopback_alone
 		if p.outIf == "lo" && identity && !q.loopbackIncluded && !(q.dns && !(p.proto == "tcp" && p.dport != 53)) {
+			hit("loopback_alone.antecedent")
 			if red != "" {
 				return "loopback_alone"
 			}
@@ -407,6 +427,7 @@ func checkPacket(q parsedCfg, p packet, f fate) string {
 			!(p.outIf == "lo" && identity && !q.loopbackIncluded && (!q.dns || (p.proto == "tcp" && p.dport != 53))) && og
 		// DNS capture: port 53 over TCP/UDP to a captured resolver goes to the agent
 		if dnsPort && tcpudp {
+			hit("dns_exact.port53-packets")
 			servers := q.raw.DNSV4
 			if p.v6 {
 				servers = q.raw.DNSV6
@@ -426,12 +447,19 @@ func checkPacket(q parsedCfg, p packet, f fate) string {
 		}
 		want := reaches && !loopDst && !inAny(q.excl, p.dst) &&
 			(has(q.outPortsIncl, strconv.FormatUint(p.dport, 10)) || q.inclAll || inAny(q.incl, p.dst))
+		hit("outbound_exact.app-tcp-packets")
+		if want {
+			hit("outbound_exact.expected-captured")
+		}
 		if want != (red == q.proxyPort) || (!want && red != "") {
 			return "outbound_exact"
 		}
 	case "PREROUTING":
 		// traffic on lo (the proxy delivering to the application, the application talking to itself) comes
 		// back in at PREROUTING: it must never be redirected there (never loop across hooks)
+		if p.inIf == "lo" {
+			hit("lo_reentry.packets")
+		}
 		if p.inIf == "lo" && red != "" {
 			return "lo_reentry_redirected"
 		}
@@ -456,8 +484,10 @@ func checkPacket(q parsedCfg, p packet, f fate) string {
 			return ""
 		}
 		if q.raw.Mode == "TPROXY" {
+			hit("tproxy_inbound.packets")
 			return checkTproxyInbound(q, p, f, loopDst)
 		}
+		hit("inbound_exact.packets")
 		if f.tproxy >= 0 {
 			return "inbound_tproxy_in_redirect_mode"
 		}
@@ -520,8 +550,10 @@ func pairedClause(cfgTokens []string, c rawCfg, q parsedCfg, rs *loaded) string 
 		p6.v6, p6.src, p6.dst = true, netip.MustParseAddr(sp[1]), netip.MustParseAddr(dp[1])
 		// the embedding must hold for this configuration: same classification of both addresses
 		if class(p4.dst) != class(p6.dst) || (sp[0] == "127.0.0.6") != (sp[1] == "::6") {
+			hit("v4_v6_paired.skipped-classification-differs")
 			continue
 		}
+		hit("v4_v6_paired.compared")
 		f4, f6 := rs.fate(p4), rs.fate(p6)
 		if f4.String() != f6.String() {
 			return fmt.Sprintf("FAIL v4_v6_same_policy:paired packet=%s fate=%s packet6=%s fate6=%s", strings.Join(p4.tokens(), "_"),
@@ -606,7 +638,7 @@ func intended(e envCase) (rawCfg, bool) {
 	def(&c.InboundCapturePort, "15006")
 	def(&c.InboundTunnelPort, "15008")
 	def(&c.TProxyMark, "1337")
-	def(&c.ProxyUID, e.uid)
+	def(&c.ProxyUID, e.host.envoyUID)
 	def(&c.ProxyGID, c.ProxyUID)
 	if !e.emptyEnv[envOwnerGroupsInclude] { // set to the empty string = capture no group; unset = "*"
 		def(&c.OwnerGroupsInclude, "*")
@@ -640,7 +672,10 @@ func intended(e envCase) (rawCfg, bool) {
 	}
 	c.DNSV4, c.DNSV6 = nil, nil
 	if c.RedirectDNS && !c.CaptureAllDNS {
-		for _, s := range e.resolv {
+		if !e.host.resolvOK { // the DNS servers cannot be learnt: the binary must refuse to go on
+			return c, true
+		}
+		for _, s := range e.host.resolv {
 			if a, err := netip.ParseAddr(s); err == nil {
 				if a.Is4() {
 					c.DNSV4 = append(c.DNSV4, a.String())
@@ -651,6 +686,38 @@ func intended(e envCase) (rawCfg, bool) {
 		}
 	}
 	return c, false
+}
+
+// mustRefuse: configurations the binary documents as errors (Validate; and - unless the rules are not
+// applied at all - the early errors of Run), stated independently of the code.
+func mustRefuse(c rawCfg, binary string, skip bool) (bool, string) {
+	if c.OwnerGroupsInclude != "*" && len(config.Split(c.OwnerGroupsInclude)) > 64 {
+		return true, "more-than-64-owner-groups"
+	}
+	if binary != "" && binary != "legacy" && binary != "nft" {
+		return true, "force-iptables-binary"
+	}
+	lo, err := netip.ParsePrefix(c.LoCidr)
+	if err != nil || !lo.Addr().Is4() || !netip.MustParsePrefix("127.0.0.0/8").Contains(lo.Addr()) || lo.Bits() < 8 {
+		return true, "loopback-cidr"
+	}
+	if skip {
+		return false, ""
+	}
+	if c.OutExclude == "*" {
+		return true, "exclude-wildcard"
+	}
+	for _, l := range []string{c.OutExclude, c.OutInclude} {
+		if l == "*" {
+			continue
+		}
+		for _, s := range config.Split(l) {
+			if _, err := netip.ParsePrefix(s); err != nil {
+				return true, "cidr"
+			}
+		}
+	}
+	return false, ""
 }
 
 // diffRaw names the first field in which the configuration the code built differs from the intended one.
@@ -711,6 +778,31 @@ func oracle(stream, in, outPath string) {
 				if len(applyCfgs) == 2 && verdict == "" {
 					verdict = applyCase(applyCfgs[0], applyCfgs[1], t)
 				}
+			}
+			continue
+		}
+		if t[0] == "cmdcfg" { // stream cmd: the real command in a child process
+			e, ok := envCaseFromTokens(append([]string{"envcfg"}, t[1:]...))
+			if !ok || verdict != "" {
+				continue
+			}
+			res := runCommand(e)
+			want, wantErr := intended(e)
+			refuse, why := wantErr, "environment"
+			if !refuse {
+				refuse, why = mustRefuse(want, e.binary, e.via["skip"] != "")
+			}
+			switch {
+			case res.exit >= 90:
+				verdict = "FAIL command_flow:harness-error-" + strconv.Itoa(res.exit)
+			case refuse && res.exit == 0:
+				verdict = "FAIL command_flow:accepted-what-must-be-refused:" + why + " via=" + e.viaToken()
+			case !refuse && res.exit != 0:
+				verdict = "FAIL command_flow:refused-a-valid-invocation via=" + e.viaToken()
+			case res.exit == 0 && e.via["skip"] != "" && len(res.lines) != 0:
+				verdict = "FAIL command_flow:skip-rule-apply-applied-rules"
+			case res.exit == 0 && e.via["skip"] == "" && len(res.lines) == 0:
+				verdict = "FAIL command_flow:dry-run-recorded-nothing"
 			}
 			continue
 		}
@@ -816,4 +908,16 @@ func oracle(stream, in, outPath string) {
 		}
 	}
 	flush()
+	out.Flush()
+	if f, err := os.Create(outPath + ".stats"); err == nil {
+		keys := make([]string, 0, len(stats))
+		for k := range stats {
+			keys = append(keys, k)
+		}
+		sort.Strings(keys)
+		for _, k := range keys {
+			fmt.Fprintf(f, "%s %d\n", k, stats[k])
+		}
+		f.Close()
+	}
 }
